@@ -1111,3 +1111,100 @@ def loops_to_comprehensions(tree: ast.Module) -> int:
     t.visit(tree)
     ast.fix_missing_locations(tree)
     return t.changed
+
+
+# ------------------------------------------------------------------------------------------------------------------
+# N6: constructor calls of package dataclasses know their arguments by field name
+#
+# ``K(a, b)`` and ``K(x=a, y=b)`` build the same object.  Nothing is rewritten; every such call node gets a
+# ``_by_field`` mapping (field name -> argument expression) that the accessors ``astutil.kw`` / ``arg_or_kw`` consult,
+# so rules can ask for "the `operands` argument" however the call is spelled.
+
+
+def _dataclass_decorator(c: ast.ClassDef) -> ast.expr | None:
+    for d in c.decorator_list:
+        e = d.func if isinstance(d, ast.Call) else d
+        name = e.attr if isinstance(e, ast.Attribute) else e.id if isinstance(e, ast.Name) else ""
+        if name == "dataclass":
+            return d
+    return None
+
+
+def _init_fields(pkg: _Package, key: tuple[str, str]) -> list[tuple[str, bool]] | None:
+    """(field name, keyword-only) in __init__ order, or None if the class is not a plain dataclass."""
+    lineage = pkg.lineage(key)
+    if not lineage or _dataclass_decorator(pkg.classes[key]) is None:
+        return None
+    order: list[str] = []
+    kwonly: dict[str, bool] = {}
+    for k in reversed(lineage):
+        c = pkg.classes[k]
+        if any(isinstance(s, ast.FunctionDef) and s.name == "__init__" for s in c.body):
+            return None
+        deco = _dataclass_decorator(c)
+        if deco is None:
+            continue
+        cls_kw = isinstance(deco, ast.Call) and any(kk.arg == "kw_only" and isinstance(kk.value, ast.Constant) and kk.value.value is True for kk in deco.keywords)
+        for s in c.body:
+            if not (isinstance(s, ast.AnnAssign) and isinstance(s.target, ast.Name)):
+                continue
+            ann = ast.unparse(s.annotation)
+            if "ClassVar" in ann:
+                continue
+            name = s.target.id
+            init = True
+            kwo = cls_kw
+            v = s.value
+            if isinstance(v, ast.Call) and (ast.unparse(v.func).split(".")[-1] == "field"):
+                for kk in v.keywords:
+                    if kk.arg == "init" and isinstance(kk.value, ast.Constant) and kk.value.value is False:
+                        init = False
+                    if kk.arg == "kw_only" and isinstance(kk.value, ast.Constant):
+                        kwo = bool(kk.value.value)
+            if not init:
+                if name in order:
+                    order.remove(name)
+                continue
+            if name not in order:
+                order.append(name)
+            kwonly[name] = kwo
+    return [(n, kwonly[n]) for n in order]
+
+
+def annotate_constructor_calls(trees: dict[str, ast.Module]) -> int:
+    pkg = _Package(trees)
+    cache: dict[tuple[str, str], list[tuple[str, bool]] | None] = {}
+    n = 0
+    for rel, tree in trees.items():
+        for call in ast.walk(tree):
+            if not isinstance(call, ast.Call):
+                continue
+            f = call.func
+            if isinstance(f, ast.Subscript):
+                f = f.value
+            name = f.id if isinstance(f, ast.Name) else f.attr if isinstance(f, ast.Attribute) else None
+            if not name or not name[:1].isupper():
+                continue
+            key = pkg.resolve_class(rel, name)
+            if key is None:
+                continue
+            if key not in cache:
+                cache[key] = _init_fields(pkg, key)
+            fields = cache[key]
+            if not fields or any(isinstance(a, ast.Starred) for a in call.args) or any(k.arg is None for k in call.keywords):
+                continue
+            positional = [nm for nm, kwo in fields if not kwo]
+            if len(call.args) > len(positional):
+                continue
+            by: dict[str, ast.expr] = dict(zip(positional, call.args))
+            ok = True
+            for k in call.keywords:
+                if k.arg in by or k.arg not in {nm for nm, _ in fields}:
+                    ok = False
+                    break
+                by[k.arg] = k.value
+            if ok:
+                call._by_field = by  # type: ignore[attr-defined]
+                call._field_order = [nm for nm, _ in fields]  # type: ignore[attr-defined]
+                n += 1
+    return n
